@@ -243,3 +243,11 @@ Qed.
 (* the exponential prior for the non-dense factorisations is never constructed *)
 Lemma prior_exp_not_implemented : forall f ode tc ie sc, f <> Dense -> prior_exp f ode tc ie sc = OtherErr.
 Proof. intros [] ode tc ie sc H; [congruence | reflexivity | reflexivity]. Qed.
+
+(* the hypotheses of the single-field theorems are satisfiable *)
+Example ex_universe_inhabited :
+  In (mkBase tc_vec APyBool ANone) (bases Dense) /\ In (AArr [2] DFloat) universe /\ In (AJetOdeAuto 2) odes.
+Proof.
+  split; [left; reflexivity|].
+  split; [unfold universe, u_depth1; apply in_or_app; left; apply in_or_app; left; simpl; tauto | simpl; tauto].
+Qed.
